@@ -75,7 +75,8 @@ def c02_output_clauses(recs, w, f, xt, xtd, case, eff):
     recs.append(('C02:transform#post.at_most_max_n_mod_labels', len(labels) <= eff['max_n_mod'], w, '%d labels' % len(labels), True))
     if xtd is not None:
         outd = xtd[f]; dl = set(pd.unique(outd[outd.notna()])); tl = set(labels)
-        recs.append(('C02:transform#post.dev_same_label_set', dl == tl, w, 'dev labels %r != train labels %r' % (dl, tl), True))
+        if eff['min_freq_mod'] > 0:          # (with an explicit threshold of 0 a label may legitimately be absent from the dev sample)
+            recs.append(('C02:transform#post.dev_same_label_set', dl == tl, w, 'dev labels %r != train labels %r' % (dl, tl), True))
         dd = len(outd) if eff['dropna'] else int(case['X_dev'][f].notna().sum())
         frd = outd[outd.notna()].value_counts() / max(dd, 1)
         recs.append(('C02:transform#post.dev_label_frequency', bool((frd >= eff['min_freq_mod']).all()), w, 'dev frequencies %r' % (frd.to_dict(),), True))
